@@ -3,7 +3,7 @@
 import json, glob, os
 ROOT = os.path.dirname(os.path.dirname(os.path.abspath(__file__)))
 rows = []
-for d in sorted(glob.glob(f"{ROOT}/seeded/C*-*")):
+for d in sorted(glob.glob(f"{ROOT}/seeded/C*-*")) + sorted(glob.glob(f"{ROOT}/seeded/X*-*")):
     m = f"{d}/meta.json"
     if not os.path.exists(m):
         continue
@@ -19,19 +19,36 @@ out = ["# Seeded changes and which checks catch them", "",
 n_conf = n_caught = n_own = 0
 for name, j in rows:
     pid = j["property"]
+    aimed = [pid] if pid.startswith("C") else __import__("re").findall(r"C\d\d", j.get("aimed_at", ""))
     checks = j.get("checks", {})
     caught = [c for c, r in checks.items() if r.get("violation")]
     silent = [c for c, r in checks.items() if not r.get("violation")]
-    caught.sort(key=lambda c: (c != pid, c))
+    caught.sort(key=lambda c: (c not in aimed, c))
     conf = j.get("confirmed")
     if conf:
         n_conf += 1
         if caught:
             n_caught += 1
-        if pid in caught:
+        if any(a in caught for a in aimed):
             n_own += 1
-    out.append(f"| {name} | {', '.join(j.get('files', []))} | {'yes' if conf else 'NO: ' + j.get('status','?')} | {', '.join(caught) if caught else '**none**'} | {', '.join(silent)} |")
+    label = name if pid.startswith("C") else f"{name} (aimed at {', '.join(aimed) or '?'})"
+    out.append(f"| {label} | {', '.join(j.get('files', []))} | {'yes' if conf else 'NO: ' + j.get('status','?')} | {', '.join(caught) if caught else '**none**'} | {', '.join(silent)} |")
 out += ["", f"Confirmed: {n_conf} of {len(rows)}; caught by at least one check: {n_caught}; caught by the check of the property they were aimed at: {n_own}.", ""]
+# behaviour-preserving changes: every check must stay silent
+ben = []
+for d in sorted(glob.glob(f"{ROOT}/seeded/benign/B*-*")):
+    m = f"{d}/meta.json"
+    if os.path.exists(m):
+        ben.append((os.path.basename(d), json.load(open(m))))
+if ben:
+    out += ["## Behaviour-preserving changes (false-alarm round)", "",
+            "Each change was written by an independent sub-agent asked for an invasive refactoring that preserves all twenty",
+            "properties; ALL twenty quick checks were run with it applied. `silent` = every check exit 0 and no VIOLATION line.", "",
+            "| change | files changed | existing tests | result | checks with a VIOLATION | checks with a non-zero exit |", "|---|---|---|---|---|---|"]
+    for name, j in ben:
+        out.append(f"| {name} | {', '.join(j.get('files', []))} | {'pass' if j.get('existing_tests_with_patch', {}).get('ok') else 'FAIL'} | {j.get('status')} | {', '.join(j.get('alarms', [])) or '-'} | {', '.join(j.get('nonzero_exit', [])) or '-'} |")
+    ns = sum(1 for _, j in ben if j.get("status") == "silent")
+    out += ["", f"Silent: {ns} of {len(ben)}.", ""]
 notes = f"{ROOT}/seeded/NOTES.md"
 if os.path.exists(notes):
     out.append(open(notes).read())
